@@ -495,9 +495,44 @@ class CallMixin:
     def namedtuple_fields(self, name):
         """[(field, default expr|None)] for a `class X(NamedTuple)` defined in the current module, else None."""
         cls = self.module.classes.get(name)
-        if cls is None or not any(ast.unparse(b) in ("NamedTuple", "typing.NamedTuple") for b in cls.bases):
+        if cls is None:
+            return self.functional_namedtuple_fields(name)
+        if not any(ast.unparse(b) in ("NamedTuple", "typing.NamedTuple") for b in cls.bases):
             return None
         return [(b.target.id, b.value) for b in cls.body if isinstance(b, ast.AnnAssign) and isinstance(b.target, ast.Name)]
+
+    def functional_namedtuple_fields(self, name):
+        """the same for a module-level `X = collections.namedtuple("X", "a b" | ["a", "b"])` / `X = typing.NamedTuple("X", [("a", T), ..])`
+        of the current module (no defaults / rename / keyword form: anything else is not recognised -> None)."""
+        expr = getattr(self.module, "assigns", {}).get(name)
+        if not isinstance(expr, ast.Call) or len(expr.args) != 2 or expr.keywords:
+            return None
+        f = expr.func
+        imports = getattr(self.module, "imports", {})
+        if isinstance(f, ast.Name):
+            dotted = imports.get(f.id)
+        elif isinstance(f, ast.Attribute) and isinstance(f.value, ast.Name) and f.value.id in imports:
+            dotted = f"{imports[f.value.id]}.{f.attr}"
+        else:
+            return None
+        spec = expr.args[1]
+        names = None
+        if dotted == "collections.namedtuple":
+            try:
+                val = ast.literal_eval(spec)
+            except (ValueError, SyntaxError, TypeError):
+                return None
+            if isinstance(val, str):
+                names = val.replace(",", " ").split()
+            elif isinstance(val, (list, tuple)) and all(isinstance(x, str) for x in val):
+                names = list(val)
+        elif dotted == "typing.NamedTuple" and isinstance(spec, (ast.List, ast.Tuple)):
+            if all(isinstance(e, ast.Tuple) and len(e.elts) == 2 and isinstance(e.elts[0], ast.Constant) and isinstance(e.elts[0].value, str)
+                   for e in spec.elts):
+                names = [e.elts[0].value for e in spec.elts]
+        if not names or len(set(names)) != len(names) or not all(n.isidentifier() and not n.startswith("_") for n in names):
+            return None
+        return [(n, None) for n in names]
 
     def construct_namedtuple(self, st, name, fields, args, kwargs, node):
         from .values import VNamedTuple
